@@ -24,6 +24,12 @@ REPLAY_DIR = os.environ.get('VERIF_REPLAY_DIR', os.path.join(VERIF, 'replay'))
 KANI_OFF = os.environ.get('VERIF_KANI', '') == 'off'   # selftest only: skip Kani (reported, never silently)
 
 
+try:
+    VOCAB = json.load(open(os.path.join(os.path.dirname(os.path.dirname(os.path.abspath(__file__))), 'units', 'vocabulary.json')))
+except Exception:
+    VOCAB = {}
+
+
 def log(*a):
     print(*a, flush=True)
 
@@ -286,13 +292,37 @@ def _check_property(pid, tier):
         for path, fr in r.fn_results.items():
             solver_ms['%s:%s' % (u, path.split('::', 1)[-1])] = fr.get('time_ms')
         shape = {info.fn: info.shape_changed for info in r.unit_obj.fns if info.shape_changed and not info.trusted}
+        # vocabulary rule: a body that calls something no body of this unit called when the contracts were written
+        # (units/vocabulary.json) was never verified against that callee's specification; vstd and the prelude
+        # specify many std functions only weakly, so a failure there cannot be attributed to the code
+        voc = set(VOCAB.get(u, [])) | set(VOCAB.get('_reviewed', []))
+        # ... or that the unit itself defines / specifies (stand-in methods, extracted functions, assume_specifications)
+        defined_fns = set(re.findall(r'\bfn\s+([a-z_][A-Za-z0-9_]*)', r.text or ''))
+        defined_fns |= set(re.findall(r'assume_specification[^\[]*\[[^\]]*?([a-z_][A-Za-z0-9_]*)\s*\]', r.text or ''))
+        defined_types = set(re.findall(r'\b(?:struct|enum|trait|type)\s+([A-Z]\w*)', r.text or '')) | {'Self'}
+
+        def in_vocabulary(c):
+            if c in voc:
+                return True
+            if c.startswith('.'):
+                return c[1:] in defined_fns
+            if '::' in c:
+                ty, nm = c.split('::', 1)
+                return ty in defined_types and nm in defined_fns
+            return c in defined_fns
+        for info in r.unit_obj.fns:
+            if info.trusted or info.fn in shape:
+                continue
+            new_callees = [c for c in info.callees if not in_vocabulary(c)]
+            if new_callees:
+                shape[info.fn] = 'calls outside the vocabulary the contracts were written against: ' + ', '.join(new_callees[:6])
         for f in r.failures:
             if not in_scope(prop, u, f.fn, f.kind, f.span_text):
                 continue
             if f.fn in shape:
                 # the body has a loop without invariant or a closure without exported ensures: Verus forgets facts the
                 # code establishes there, so this failure cannot be attributed to the code
-                msg = 'unit %s: %s: obligation not discharged, but the body has %s -> cannot be decided by these contracts (%s)' % (u, f.fn, shape[f.fn], f.obligation[:160])
+                msg = 'unit %s: %s: obligation not discharged, but the body %s -> cannot be decided by these contracts (%s)' % (u, f.fn, shape[f.fn], f.obligation[:160])
                 if msg not in undecided:
                     undecided.append(msg)
                 continue
